@@ -79,7 +79,8 @@ impl<TS: TimeSource> BeaconSerializer<TS> {
             pos += 1;
             if pos == 16 {
                 pos = 0;
-                iter += 1;
+                // the block counter is one byte and wraps after 4 KiB of data (what release builds do anyway)
+                iter = iter.wrapping_add(1);
                 mask = self.get_keystream(type_, seed, iter);
             }
         }
